@@ -336,6 +336,34 @@ pub fn run(out: &mut Out, tier: &str, seed: u64) {
         let holes = vec![(cell.clone(), if k % 5 == 2 || k % 5 == 4 { 1 } else { 0 }, if k % 5 == 2 { 1 } else { 0 })];
         let _ = unify_case(out, &mut names, &a, &b, &mut dctx, "config", &holes, Some(exp));
     }
+    // 2b. alias chains: a cell solved by a (shifted) unresolved hole, seen through another shift, against the target
+    // hole at every shift -- the shifts along a chain of cells must add up (syntactic shortcut and unification)
+    for s in 0..3usize {
+        for t in 0..3usize {
+            for u in 0..5usize {
+                for wrap in 0..2 {
+                    let target: Cell = Rc::new(RefCell::new(None));
+                    let hb = |k: usize| Term { source_range: None, variant: Variant::Unifier(target.clone(), k) };
+                    let alias: Cell = Rc::new(RefCell::new(Some(hb(t))));
+                    let ha = Term { source_range: None, variant: Variant::Unifier(alias.clone(), s) };
+                    let (a, b) = if wrap == 0 { (ha, hb(u)) } else {
+                        (mk::app(mk::var("f", s + t + 2), ha), mk::app(mk::var("f", s + t + 2), hb(u)))
+                    };
+                    let mut dctx: DCtx = vec![None; s + t + 3];
+                    if !out.begin(&format!("unify: alias chain, shifts {s}+{t} against {u}, wrap {wrap}")) { continue; }
+                    let mut ss = StoreSer::new();
+                    let (sa, sb) = (ss.term(&mut names, &a), ss.term(&mut names, &b));
+                    let st = ss.store(&mut names);
+                    out.case(&format!("syneq {st} {sa} {sb}"), &format!("{}", syntactically_equal(&a, &b)));
+                    if syntactically_equal(&a, &b) != (s + t == u) {
+                        out.hit("C12", "syntactic-shortcut-ignores-shifts-along-a-chain-of-cells", &format!("syneq {st} {sa} {sb}"),
+                                &format!("cell A := ?B shifted by {t}; ?A shifted by {s} compared with ?B shifted by {u}: equal iff {s}+{t} = {u}"));
+                    }
+                    let _ = unify_case(out, &mut names, &a, &b, &mut dctx, "alias-chain", &[], None);
+                }
+            }
+        }
+    }
     // 3. G-prog programs as instances: holes punched into parser-produced terms
     let np = if tier == "thorough" { 6000 } else { 600 };
     for i in 0..np {
